@@ -487,7 +487,7 @@ def shortcutDef (B : Bnds) (defs : List Def) (d : Def) : Bool :=
 
 /-- further paths of the real converter not mirrored yet (see design notes, round 5): downward bound propagation from logical rows
 (`FixAsTrue` + `PropagateResult` through not/and/or, removal of a fixed-true `and`), the unary-encoding treatment of `var == const`
-(`ConvertMaps`), results whose created bounds are a point (`MakeFixedVar` instead of a definition), single-term algebraic rows -/
+(`ConvertMaps`), results whose created bounds are a point (`MakeFixedVar` instead of a definition) -/
 def ConvOut.shortcut2 (o : ConvOut) (linear : Bool) : Bool :=
   (linear && !o.fixTrue.isEmpty) ||
   o.fixTrue.any (fun v => match defOf o.defs v with
@@ -495,8 +495,7 @@ def ConvOut.shortcut2 (o : ConvOut) (linear : Bool) : Bool :=
   o.defs.any (fun d => match d.f with
     | .condLin .eq [(_, v)] _ => (o.B v).isInt
     | .affine [] _ => false
-    | f => (resBnd o.B f).isFixed) ||
-  o.roots.any (fun r => decide (r.body.length ≤ 1) && !(r.lb == some 1 && r.ub == none))
+    | f => (resBnd o.B f).isFixed)
 
 def ConvOut.shortcut (o : ConvOut) (linear : Bool := false) : Bool :=
   o.defs.any (shortcutDef o.B o.defs) || o.blocks.any (·.unmodelled) || o.shortcut2 linear
@@ -524,6 +523,15 @@ def typedDef (B : Bnds) (d : Def) : Bool :=
    | .ifthen c _ _ => isBin01 (B c)
    | _ => true)
 
+/-- extra conditions of the linear acceptance set: max/min non-empty; comparisons with non-empty integer-typed bodies and an
+integer right-hand side (then the `ComparisonEps = 1` reformulation is exact) -/
+def linDefOK (B : Bnds) (d : Def) : Bool :=
+  match d.f with
+  | .max as => !as.isEmpty
+  | .min as => !as.isEmpty
+  | .condLin _ body rhs => !body.isEmpty && (linBnd B body).2.2 && isIntQ rhs
+  | _ => true
+
 def finiteRoot (r : Root) : Bool :=
   (match r.lb with | some l => decide (-pracInf < l) | none => true) &&
   (match r.ub with | some u => decide (u < pracInf) | none => true)
@@ -539,6 +547,16 @@ def ConvOut.checks (m : NLModel) (o : ConvOut) : Bool :=
   (match o.obj with
    | some ob => ob.lin.all (fun p => decide (p.2 < o.N)) && ob.quad.isEmpty && (objGaps o.B o.defs ob).isEmpty
    | none => true)
+
+/-- additional checks for the linear acceptance set: no gadget refused (all big-M constants finite), `cvt:bigM` unset,
+comparisons integer, max/min non-empty, and the rows a gadget emitted mention only original/result variables and the block's
+own auxiliary variables -/
+def Block.localRows (N : Nat) (b : Block) : Bool :=
+  b.raw.all fun c => c.vars.all fun v => decide (v < N) || (decide (b.lo ≤ v) && decide (v < b.lo + b.vars.length))
+
+def ConvOut.checksLin (o : ConvOut) (cfg : Cfg) : Bool :=
+  decide (cfg.opts.bigM ≤ 0) && o.blocks.all (fun b => b.refusal.isNone && b.localRows o.N) &&
+  o.defs.all (linDefOK o.B)
 
 /-- syntactic part of the fragment: every variable leaf is a variable of the model -/
 def NLModel.vok (m : NLModel) : Bool :=
